@@ -70,6 +70,7 @@ func runC08(t *testing.T, seed uint64, m *Mask) *Report {
 	// id takeover before the peer is closed: a second session between the same peers takes the id of the first,
 	// which closes the first one gracefully; the peer close that follows must still wait for its handlers
 	takeover := closeKind == "peer" && !withCut && r.Chance(0.3)
+	vetoRead := !withCut && !takeover && r.Chance(0.2)
 	closeYield := r.Intn(80)
 	closeSleep := time.Duration(r.Intn(15)) * time.Millisecond
 	cutAfter := time.Duration(r.Intn(25)) * time.Millisecond
@@ -92,7 +93,13 @@ func runC08(t *testing.T, seed uint64, m *Mask) *Report {
 			}
 		}
 		pf := world.ProtoFunc(proto)
-		A := e.NewPeer("A", erpc.PeerConfig{})
+		// the closing side's reader may stop for a reason of its own while Close is waiting for handlers (a
+		// PreReadHeader hook that refuses to read on, as a session-age deadline would): the replies still go out
+		stopReading := false
+		A := e.NewPeer("A", erpc.PeerConfig{}, &c08ReadGate{stop: func(s erpc.Session) bool {
+			// only once the local Close has taken the session to its closing state (status 2, active closing)
+			return stopReading && s != nil && erpc.VerifSessionStatus(s) == 2
+		}})
 		B := e.NewPeer("B", erpc.PeerConfig{})
 		rtA := e.RegisterStd(A)
 		rtB := e.RegisterStd(B)
@@ -130,6 +137,7 @@ func runC08(t *testing.T, seed uint64, m *Mask) *Report {
 				simrt.Sleep(closeSleep)
 			}
 			closeStart = e.Sched.Stats.Steps
+			stopReading = vetoRead
 			if takeover {
 				if s2, _, _, _ := e.ServePair(A, B, pf, pf); s2 != nil {
 					s2.SetID(sa.ID())
@@ -210,6 +218,9 @@ func runC08(t *testing.T, seed uint64, m *Mask) *Report {
 			// The statement covers handlers already entered when Close was called (closing side), and calls the
 			// closing side issued before it called Close.  What starts after that point is not judged.
 			covered := h != nil && ((!op.ToSrv && h.enter < closeStart) || (op.ToSrv && op.IssuedAt < closeStart))
+			if vetoRead && op.ToSrv {
+				covered = false // the closing side stopped reading on purpose: the replies to its own calls are not read
+			}
 			if h != nil && !covered {
 				e.Probe("handler-entered-after-close-began")
 			}
@@ -234,4 +245,15 @@ func runC08(t *testing.T, seed uint64, m *Mask) *Report {
 	})
 	rep.Sample = sampleOps(ops, 4)
 	return finish(rep, out)
+}
+
+// c08ReadGate is a PreReadHeader plugin that refuses to read the next message once told to.
+type c08ReadGate struct{ stop func(erpc.Session) bool }
+
+func (g *c08ReadGate) Name() string { return "readgate" }
+func (g *c08ReadGate) PreReadHeader(c erpc.PreCtx) error {
+	if g.stop(erpc.VerifSessionOf(c.Session())) {
+		return fmt.Errorf("reading stopped by plugin")
+	}
+	return nil
 }
